@@ -12,6 +12,9 @@
      UTF-8 JSON), or returns a value the JSON serialiser rejects.
    * pydantic's Request model is transcribed in [validate] (extra members forbidden,
      id : str | int | float | None in smart mode, bool accepted as int by lax coercion).
+   * [pok p] says whether the params decode (_decode_models: an object tagged with the
+     name of a model must validate as that model; Models.decode).  The theorems hold for
+     every [pok]; the correspondence instantiates it with Models.decode.
 
    Python exceptions leaving handle_json are the explicit outcome [OEscaped].  The
    record [version] selects between the code before and after the fix: commits recorded
@@ -72,7 +75,7 @@ Definition id_of (o : list (str * json)) : option (option rid) :=
   | Some (JObj _) => None
   end.
 
-Definition validate (j : json) : vres :=
+Definition validate (pok : params -> bool) (j : json) : vres :=
   match j with
   | JObj o =>
       match lookup k_jsonrpc o with
@@ -87,6 +90,7 @@ Definition validate (j : json) : vres :=
               | Some p =>
                   (* Request.model_validate(request_dict) *)
                   if negb (forallb (fun kv => known_member (fst kv)) o) then VPydanticErr
+                  else if negb (pok p) then VPydanticErr
                   else match id_of o with
                        | None => VPydanticErr
                        | Some i => VOk (mkReq i m p)
@@ -186,10 +190,12 @@ Arguments PRaise {A} e.
 Record version := mkVersion {
   v_catch_validation : bool;   (* ValidationError -> InvalidRequestError *)
   v_safe_dump : bool;          (* serialisation failure -> application error *)
-  v_decode_in_handler : bool   (* http/handlers.py decodes the body as UTF-8 first *)
+  v_decode_in_handler : bool;  (* http/handlers.py decodes the body as UTF-8 first *)
+  v_tag_decode : bool          (* params decoded by their __model__ tag (may fail) rather
+                                  than by the smart union model | Any (never fails) *)
 }.
-Definition pre_fix := mkVersion false false true.
-Definition fixed := mkVersion true true false.
+Definition pre_fix := mkVersion false false true false.
+Definition fixed := mkVersion true true false true.
 
 Definition E_PARSE : Z := -32700.
 Definition E_INVALID : Z := -32600.
@@ -199,6 +205,7 @@ Definition E_APP : Z := 0.
 
 Section Wrapper.
   Variable v : version.
+  Variable pok : params -> bool.
   Variable ms : mounts.
   Variable call : log -> entry -> params -> call_result.
 
@@ -208,8 +215,10 @@ Section Wrapper.
     | Some i => SResp (mkResp (Some i) p)
     end.
 
+  Definition vpok : params -> bool := if v_tag_decode v then pok else fun _ => true.
+
   Definition handle_single (l : log) (j : json) : sres * log :=
-    match validate j with
+    match validate vpok j with
     | VInvalidReq => (SResp (mkResp None (PError E_INVALID)), l)
     | VPydanticErr =>
         if v_catch_validation v then (SResp (mkResp None (PError E_INVALID)), l)
